@@ -1158,7 +1158,7 @@ func (f *formatter) ExprClosure(n *ast.ExprClosure) {
 		f.addFreeFloating(token.T_WHITESPACE, []byte(" "))
 	}
 
-	n.FunctionTkn = f.newToken(token.T_FN, []byte("function"))
+	n.FunctionTkn = f.newToken(token.T_FUNCTION, []byte("function"))
 
 	if n.AmpersandTkn != nil {
 		n.AmpersandTkn = f.newToken('&', []byte("&"))
@@ -1236,7 +1236,7 @@ func (f *formatter) ExprEval(n *ast.ExprEval) {
 }
 
 func (f *formatter) ExprExit(n *ast.ExprExit) {
-	n.ExitTkn = f.newToken(token.T_EVAL, []byte("exit"))
+	n.ExitTkn = f.newToken(token.T_EXIT, []byte("exit"))
 
 	n.OpenParenthesisTkn = nil
 	n.CloseParenthesisTkn = nil
@@ -2018,7 +2018,7 @@ func (f *formatter) ScalarHeredoc(n *ast.ScalarHeredoc) {
 	for _, p := range n.Parts {
 		p.Accept(f)
 	}
-	n.CloseHeredocTkn = f.newToken(token.T_START_HEREDOC, []byte("EOT"))
+	n.CloseHeredocTkn = f.newToken(token.T_END_HEREDOC, []byte("EOT"))
 }
 
 func (f *formatter) ScalarLnumber(n *ast.ScalarLnumber) {
